@@ -1239,8 +1239,8 @@ def run(ctx):
               output_names_changed=stats["output_names_changed"], make_model_protocol_runs=stats["make_model_protocol"],
               generated_invalid_skipped=stats["generated_invalid_skipped"], refused_descriptively=stats["refused_descriptively"], unrunnable_originals=stats["unrunnable_originals"],
               option_tuples="all 16" if not quick else "default + 3 random per case (structure correspondence and attribute-parameter functions: every tuple)",
-              not_modelled="attribute pretty-printing, _handle_attrname_conflict (observed through execution only); inline_const is modelled (Export/EmitCF.v) and "
+              not_modelled="attribute pretty-printing (observed through execution only); _handle_attrname_conflict is modelled (Export/AttrNames.v) and compared, no theorem; inline_const is modelled (Export/EmitCF.v) and "
                            "compared, covered by literal-text and line-level theorems only; bodies reading their condition input are compared, not in a theorem; "
                            "If nodes whose outputs are all unused are not generated (the converter refuses them)")
     if ctx.tier == "thorough":
-        ctx.coqchk(["Props.C13", "Props.C13_unssa", "Props.C13_constrepr", "Props.C13_emit", "Props.C13_nested", "Props.C13_unique", "Props.C13_options", "Props.C13_roundtrip", "Props.C13_findings", "Props.C13_loopforms", "Props.C13_optsem", "Props.C13_inline"])
+        ctx.coqchk(["Props.C13", "Props.C13_unssa", "Props.C13_constrepr", "Props.C13_emit", "Props.C13_nested", "Props.C13_unique", "Props.C13_options", "Props.C13_roundtrip", "Props.C13_findings", "Props.C13_loopforms", "Props.C13_optsem", "Props.C13_inline", "Props.C13_rename"])
